@@ -220,7 +220,7 @@ pub fn run() -> i32 {
             Stmt::Let("a".into(), Expr::Num(10)),
             Stmt::Loop("a".into(), Expr::Num(2), vec![
                 Stmt::Row(vec![ex(id("a")), Entry::X]),
-                Stmt::Loop("a".into(), Expr::Num(1), vec![
+                Stmt::Loop("b".into(), Expr::Num(1), vec![
                     Stmt::Let("a".into(), Expr::Num(50)),
                     Stmt::Row(vec![ex(id("a")), Entry::X]),
                 ]),
